@@ -45,7 +45,8 @@ Record pcase := mkcase {
   c_events : list ev;
   c_steps : list stepobs;
   c_conts : list contobs;
-  c_res : option resobs
+  c_res : option resobs;
+  c_loose : bool      (* observed through the real etcd client: the request counters / revisions are not compared *)
 }.
 
 Definition under_of (c : pcase) (k : key) : bool := existsb (Nat.eqb k) (c_under c).
@@ -129,7 +130,7 @@ Fixpoint deltas (old new : list (list call)) : list (list call) :=
       end
   end.
 
-Definition step_matches (s s' : state) (e : ev) (o : stepobs) : bool :=
+Definition step_matches (loose : bool) (s s' : state) (e : ev) (o : stepobs) : bool :=
   o_fine o &&
   all2 (list_eqb call_eqb) (deltas (subs s) (subs s')) (o_calls o) &&
   match cvals s', o_cvals o with
@@ -137,18 +138,22 @@ Definition step_matches (s s' : state) (e : ev) (o : stepobs) : bool :=
   | None, None => true
   | _, _ => false
   end &&
+  (loose ||
   Nat.eqb (nwatch s') (o_watchers o) &&
   (if expects_load s e
    then Nat.eqb (o_gets o) 1 && Nat.eqb (o_opened o) 1 &&
         Nat.eqb (o_getrev o) (rev s') && Nat.eqb (o_watchrev o) (S (rev s'))   (* WithRev(rev+1) *)
-   else Nat.eqb (o_gets o) 0 && Nat.eqb (o_opened o) 0).
+   else match e with
+        | Rewatch => Nat.eqb (o_gets o) 0 && Nat.eqb (o_opened o) (if Nat.eqb (nwatch s) 0 then 0 else 1)
+        | _ => Nat.eqb (o_gets o) 0 && Nat.eqb (o_opened o) 0
+        end)).
 
-Fixpoint hist_rows (u : key -> bool) (s : state) (h : list ev) (os : list stepobs) : bool :=
+Fixpoint hist_rows (loose : bool) (u : key -> bool) (s : state) (h : list ev) (os : list stepobs) : bool :=
   match h, os with
   | [], [] => true
   | e :: h', o :: os' =>
       let s' := step u true s e in
-      step_matches s s' e o && hist_rows u s' h' os'
+      step_matches loose s s' e o && hist_rows loose u s' h' os'
   | _, _ => false
   end.
 
@@ -176,7 +181,7 @@ Definition pmodel_ok (c : pcase) : bool :=
   match c_res c with
   | Some q => res_ok u (c_events c) q
   | None =>
-      hist_rows u init (c_events c) (c_steps c) &&
+      hist_rows (c_loose c) u init (c_events c) (c_steps c) &&
       (is_nil (c_events c) ||
        all2 (fun log t => list_eqb call_eqb (calls_of (t_ops t)) log) (subs (run u (c_events c))) (c_conts c)) &&
       forallb cont_ok (c_conts c)
